@@ -35,13 +35,45 @@ def _run_one(cid):
     raise KeyError(cid)
 
 
+def _shaky(r):
+    """a result that may be an artefact of a solver time-out: an unknown obligation, or a refutation found only after the
+    quantified hypotheses were dropped"""
+    if r.get('error'):
+        return False
+    return any(cl['status'] == 'unknown' or (cl['status'] == 'refuted' and '[weak model' in (cl.get('detail') or '')) for cl in r['clauses'].values())
+
+
+def _run_one_slow(cid):
+    os.environ['PYVC_TIMEOUT_SCALE'] = '5'
+    os.environ['PYVC_FEAS_MS'] = '4000'
+    try:
+        return _run_one(cid)
+    finally:
+        os.environ.pop('PYVC_TIMEOUT_SCALE', None)
+        os.environ.pop('PYVC_FEAS_MS', None)
+
+
 def run_contracts(cids, jobs):
     import multiprocessing as mp
     if jobs <= 1 or len(cids) <= 1:
-        return [_run_one(c) for c in cids]
-    ctx = mp.get_context('fork')
-    with ctx.Pool(min(jobs, len(cids))) as pool:
-        return pool.map(_run_one, cids, chunksize=1)
+        res = [_run_one(c) for c in cids]
+    else:
+        ctx = mp.get_context('fork')
+        with ctx.Pool(min(jobs, len(cids)), maxtasksperchild=1) as pool:
+            res = pool.map(_run_one, cids, chunksize=1)
+    # verdicts must not depend on machine load: anything that looks like a time-out is decided again with five times the
+    # budget and at most 4 solver processes at a time
+    again = [i for i, r in enumerate(res) if _shaky(r)]
+    if again:
+        if os.environ.get('PYVC_VERBOSE'):
+            print('retrying with a larger budget:', [cids[i] for i in again], [[n for n, cl in res[i]['clauses'].items() if cl['status'] != 'proved'] for i in again])
+        ctx = mp.get_context('fork')
+        with ctx.Pool(min(4, len(again)), maxtasksperchild=1) as pool:
+            redo = pool.map(_run_one_slow, [cids[i] for i in again], chunksize=1)
+        for i, r in zip(again, redo):
+            r['retried_with_larger_budget'] = True
+            res[i] = r
+    return res
 
 
 def load_json(path, default):
@@ -323,7 +355,7 @@ def check(pid, tier, seed, args):
         'solver_time_s': round(solver_time, 3),
         'functions_under_contract': functions,
         'contracts': [{'id': r['cid'], 'paths': r['paths'], 'loop_cut_paths': r['cut_paths'], 'clauses': len(r['clauses']),
-                       'undecided': r['undecided'], 'wall_s': round(r['wall'], 2)} for r in results],
+                       'undecided': r['undecided'], 'wall_s': round(r['wall'], 2), 'retried_with_larger_budget': bool(r.get('retried_with_larger_budget'))} for r in results],
         'samples': samples[:12] or [{'note': 'no obligations generated'}],
         'refuted': [v[0] for v in violations], 'known_findings_matched': [k[0] for k in known_hit],
         'unknown': ["%s::%s" % (c, n) for c, n, _ in unknown], 'undecided': ["%s: %s" % u for u in undecided],
